@@ -10,6 +10,8 @@ from concurrent.futures import ProcessPoolExecutor, as_completed
 
 import z3
 
+z3.set_param("warning", False)
+
 
 def to_smt2(hyps, goal) -> str:
     s = z3.Solver()
